@@ -122,6 +122,19 @@ def cross(ck, q, *names):
             book_gen(ck, "x_ties_modify_reload", Ops=["cap", "modify", "reload"], Dts=[0], Discipline=False, Kinds=["L"], Prices=[10], Vols=[1, 2],
                      ModPrices=[-1, 10], ModVols=["none", "equal"], MaxOrders=3 if q else 4, MaxOps=5 if q else 6,
                      need=("op_modify", "op_reload", "dt0", "has_trade"), timeout=300 if q else 1500)
+        elif nm == "edge_prices":
+            # both ends of the price range as LIMIT prices: bids resting at price 0 (also what an empty bid side shows, and the price a
+            # market sell carries) and asks resting at 2^32 - 1 (also what an empty ask side shows, and the price a market buy
+            # carries), with market orders that reach them, cancellations, re-pricings to 0, two published levels, drain probe
+            book_gen(ck, "x_edge_prices", cfg=GEN_DRAIN, Ops=["cap", "cancel", "modify"], Tick=1, NLevels=2, Prices=[0, 1, MAXPRICE], ModPrices=[-1, 0],
+                     ModVols=["smaller"], Kinds=["L", "M"], MaxOrders=3, MaxOps=3 if q else 4, need=("two_sided", "has_trade", "op_modify"), timeout=300 if q else 1500)
+        elif nm == "env_edge_prices":
+            # the same through the environments: instructions for orders resting at price 0 / 2^32 - 1, cached level-2 data and records
+            env_gen(ck, "x_env_edge_prices", kind="env", seeds=4, StepSize=3, T0=5, NLevels=3, Ops=["new", "cancel", "modify", "step"], Kinds=["L", "M"],
+                    Prices=[0, MAXPRICE], Vols=[1, 2], ModPrices=[0], ModVolsAbs=[-1, 1], MaxSubmits=3, MaxBatch=3, MaxSteps=2, MaxOrders=2,
+                    need=("has_trade", "has_cancel", "has_modify"), timeout=400 if q else 1800)
+            env_gen(ck, "x_menv_edge_prices", kind="menv", seeds=4, Ticks=(1, 1), StepSize=3, NLevels=3, Ops=["new", "cancel", "step"], Kinds=["L"],
+                    Prices=[0, MAXPRICE], Vols=[1], MaxSubmits=3, MaxBatch=3, MaxSteps=2, MaxOrders=2, need=("has_cancel",), timeout=400 if q else 1800)
         elif nm == "env_overflow":
             # the book under an environment whose step carries more instructions than the step size has time units: arrival and
             # trade times run past the end of the step, the clock then steps back (the environment does that, not the caller),
@@ -223,7 +236,7 @@ def c01(tier, seed):
     book_gen(ck, "gen_split_api", Ops=["create", "place", "cancel", "event", "settime"], Dts=[0, 1], Tick=3, NLevels=2,
              Prices=[9, 12], Vols=[1, 2] if q else [1, 2, 3], Kinds=["L", "M"], MaxOrders=2 if q else 3, MaxOps=4 if q else 5,
              need=("has_trade", "unplaced_order"), timeout=300 if q else 1500)
-    cross(ck, q, "ties", "ties_deep", "split_modify", "big_volumes", "top_price", "big_clock", "long_queue", "off_modify", "reload_resettv", "env_overflow", "coarse_grid")
+    cross(ck, q, "ties", "ties_deep", "split_modify", "big_volumes", "top_price", "big_clock", "long_queue", "off_modify", "reload_resettv", "env_overflow", "coarse_grid", "edge_prices")
     # long random histories over wide alphabets, recorded from the real code and validated by TLC
     ck.traces_stage("rand", "record_book", {"discipline": True}, files=8 if q else 64, runs=2 if q else 4, ops=300)
     # the same without the clock discipline: half of the queue insertions tie
@@ -267,7 +280,7 @@ def c02(tier, seed):
              MaxOrders=3, MaxOps=3 if q else 4, need=("two_sided", "has_trade"), timeout=300 if q else 1500)
     book_gen(ck, "gen_views_reload", cfg=GEN, Ops=["cap", "cancel", "reload"], NLevels=1, Prices=[10, 11], Vols=[1, 3],
              MaxOrders=3, MaxOps=4 if q else 5, need=("two_sided", "op_reload"), timeout=300 if q else 1500)
-    cross(ck, q, "ties_deep", "ties_modify", "split_modify", "big_volumes", "coarse_grid", "ties", "off_modify", "reload_resettv", "top_price", "big_clock", "long_queue", "env_overflow")
+    cross(ck, q, "ties_deep", "ties_modify", "split_modify", "big_volumes", "coarse_grid", "ties", "off_modify", "reload_resettv", "top_price", "big_clock", "long_queue", "env_overflow", "edge_prices")
     # views of books that hold orders at prices off the tick grid.  Such orders exist (modify_order accepts any price: known
     # finding F3 of C12), and C02 speaks of every moment of every book: levels are the tick multiples counted from the touch, an
     # order elsewhere belongs to no level.  The specification runs with its named deviation FollowF3 = TRUE (BookOps.tla), i.e.
@@ -299,7 +312,7 @@ def c03(tier, seed):
     book_gen(ck, "gen_ledger", cfg=GEN, Ops=["cap", "cancel", "modify", "resettv"], Prices=[10, 11], Vols=[1, 3],
              ModPrices=[-1, 10, 11], ModVols=["smaller", "larger"], MaxOrders=3, MaxOps=4 if q else 5,
              need=("has_trade", "multi_trade", "op_resettv", "op_modify"), timeout=300 if q else 1500)
-    cross(ck, q, "reload_resettv", "ties", "off_modify", "big_volumes", "big_clock", "long_queue", "env_overflow", "ties_deep", "split_modify", "top_price", "coarse_grid")
+    cross(ck, q, "reload_resettv", "ties", "off_modify", "big_volumes", "big_clock", "long_queue", "env_overflow", "ties_deep", "split_modify", "top_price", "coarse_grid", "edge_prices")
     prof = {"discipline": True, "audit_every": 10, "w": {"toggle": 0.5, "resettv": 1.5, "modify": 5, "reload": 0.5}}
     ck.traces_stage("rand_ledger", "record_book", prof, files=8 if q else 64, runs=2 if q else 4, ops=300)
     # the ledger of a book that is driven by an environment: partial fills and price-only / volume-only modifications of the same
@@ -337,7 +350,7 @@ def c04(tier, seed):
     book_gen(ck, "gen_requests_off", cfg=GEN, Ops=["cap", "place", "cancel", "modify", "event", "enable"], Trading0=False,
              Prices=[10], Vols=[1], ModPrices=[-1, 10], ModVols=["none", "equal", "larger"], MaxOrders=2, MaxOps=4 if q else 5,
              need=("rejected_order",), timeout=300 if q else 1500)
-    cross(ck, q, "ties", "ties_modify", "split_modify", "top_price", "big_clock", "env_overflow", "ties_deep", "off_modify", "reload_resettv", "big_volumes", "long_queue", "coarse_grid")
+    cross(ck, q, "ties", "ties_modify", "split_modify", "top_price", "big_clock", "env_overflow", "ties_deep", "off_modify", "reload_resettv", "big_volumes", "long_queue", "coarse_grid", "edge_prices")
     # the same lifecycle through a two-asset market (arrival and end times under the shared clock, set_time between calls)
     mkt_gen(ck, "gen_market_lifecycle", Ticks=(1, 1), Ops=["cap", "create", "place", "cancel", "settime"], Kinds=["L", "M"], Prices=[10], Vols=[1], MaxOrders=2,
             MaxOps=4, need=("ops_on_two_assets", "has_trade"), timeout=300 if q else 1500)
@@ -403,7 +416,7 @@ def c06(tier, seed):
              timeout=300 if q else 1500)
     book_gen(ck, "gen_modify_cancel_mkt", Ops=["cap", "modify", "cancel"], Prices=[10, 11], ModPrices=[-1, 10, 11],
              ModVols=["smaller", "larger"] if q else MODV, MaxOrders=3 if q else 4, MaxOps=4 if q else 5, need=("op_modify", "cancelled_order"), timeout=300 if q else 1500)
-    cross(ck, q, "ties_modify", "off_modify", "split_modify", "big_volumes", "top_price", "ties", "ties_deep", "reload_resettv", "big_clock", "long_queue", "coarse_grid", "env_overflow")
+    cross(ck, q, "ties_modify", "off_modify", "split_modify", "big_volumes", "top_price", "ties", "ties_deep", "reload_resettv", "big_clock", "long_queue", "coarse_grid", "env_overflow", "edge_prices")
     # modification through the environments: a queued modify instruction is applied when the step processes it, to the order
     # as it is THEN ("omitted fields keep their current values" - current at application, e.g. after a partial fill earlier
     # in the same step); partial fills and price-only / volume-only modifies in one batch, every schedule
@@ -482,7 +495,7 @@ def c12(tier, seed):
     # ... and ON the grid of tick 3 (3 divides 2^32 - 1): such a creation is accepted, on both sides (so is price 0)
     book_gen(ck, "gen_create_max_tick3", cfg=GEN, Ops=["cap", "create", "place"], Tick=3, Prices=[0, 9, MAXPRICE], Vols=[1], MaxOrders=3,
              MaxOps=3 if q else 4, need=("has_trade",), timeout=300)
-    cross(ck, q, "coarse_grid", "ties", "ties_modify", "off_modify", "split_modify", "top_price", "big_volumes")
+    cross(ck, q, "coarse_grid", "ties", "ties_modify", "off_modify", "split_modify", "top_price", "big_volumes", "edge_prices")
     # the ends of the price range: the lowest grid prices (levels reaching price 0, tick 2, four published levels) and
     # the grid points just below the maximum price (high-price regime, DESIGN.md 3.6): the per-level data accounts for all resting volume
     book_gen(ck, "gen_levels_low", cfg=GEN, Ops=["cap", "cancel"], Tick=2, NLevels=4, Prices=[0, 2, 6], Vols=[1, 2], Kinds=["L"],
@@ -533,7 +546,7 @@ def c13(tier, seed):
     # market and environment level
     mkt_gen(ck, "gen_market_toggle", Ticks=(1, 1), Ops=["cap", "modify", "disable", "enable"], Kinds=["L", "M"], Prices=[10, 11], Vols=[1],
             ModPrices=[10, 11], ModVolsAbs=[-1], MaxOrders=2, MaxOps=4, need=("trading_toggled", "has_trade"), timeout=300 if q else 1500)
-    cross(ck, q, "market_toggle_reload", "off_modify", "ties", "split_modify", "top_price", "big_volumes", "big_clock")
+    cross(ck, q, "market_toggle_reload", "off_modify", "ties", "split_modify", "top_price", "big_volumes", "big_clock", "edge_prices")
     # snapshots of books with trading off / on, then the switch
     book_gen(ck, "gen_toggle_reload", Ops=["cap", "disable", "enable", "reload"], Prices=[10], Vols=[1], Kinds=["L", "M"], MaxOrders=2,
              MaxOps=4 if q else 5, need=("op_reload", "trading_off", "has_trade", "rejected_order"), timeout=300 if q else 1500)
@@ -692,6 +705,7 @@ def c08(tier, seed):
     env_gen(ck, "gen_menv_clock_epoch", kind="menv", seeds=s, time_offset=1700000000123456789, Ticks=(1, 1), StepSize=2, T0=1, Ops=["new", "step"], Kinds=["L"],
             Prices=[10], Vols=[1], MaxSubmits=3, MaxBatch=2, MaxSteps=2, MaxOrders=2, need=("has_trade", "multi_step"), timeout=400 if q else 1800)
     # long random runs, batches up to 25 instructions (step sizes from 1 to 1000): schedule from the hook, linear validation
+    cross(ck, q, "env_edge_prices")
     env_traces(ck, "rand_env_hook", {"max_batch": 48, "p_step": 0.04}, files=6 if q else 48, runs=3 if q else 6, ops=250, hook=True)
     # agent-generated load: complete simulations through the real runners (batches of tens of instructions)
     sim_traces(ck, "sim_steps", files=4 if q else 32, runs=3 if q else 6, steps=30 if q else 100)
@@ -721,6 +735,7 @@ def c10(tier, seed):
     env_gen(ck, "gen_menv_submit", kind="menv", seeds=s, Ticks=(1, 1), Ops=["new", "cancel", "step"], Kinds=["L"], MaxSubmits=3 if q else 4,
             MaxBatch=3, MaxSteps=2, MaxOrders=2, need=("submit_after_step", "has_trade"), timeout=400 if q else 1800)
     # random interleavings: many submissions between steps (every one of them must be invisible), toggles
+    cross(ck, q, "env_edge_prices")
     env_traces(ck, "rand_env_submissions", {"max_batch": 12, "p_step": 0.08, "p_toggle": 0.05, "p_market": 0.3}, files=6 if q else 48, runs=3 if q else 6, ops=200)
     python_view(ck, q, ("env", "numpy"))
     return ck.finish("model_checking", LEVEL_TEXT, ENV_RULE + "paths ending in a submission made after at least one step",
@@ -751,6 +766,7 @@ def c11(tier, seed):
     env_gen(ck, "gen_env_records_l10", kind="env", seeds=s, NLevels=10, Ops=["new", "step"], Kinds=["L"], Prices=[10, 13, 19], Vols=[1, 2],
             Sides=["B", "A"], MaxSubmits=3, MaxBatch=2, MaxSteps=2, MaxOrders=3, need=("multi_step",), timeout=400 if q else 1800)
     # random runs: every level count the harness instantiates, up to 4 assets, many steps; all series compared in full at audit events
+    cross(ck, q, "env_edge_prices")
     env_traces(ck, "rand_env_records", {"max_batch": 6, "p_step": 0.3, "levels": [1, 2, 3, 4, 10], "assets": [1, 2, 3, 4], "nprices": 14}, files=6 if q else 48,
                runs=3 if q else 6, ops=200)
     python_view(ck, q, ("env", "numpy"))
@@ -785,6 +801,7 @@ def c14(tier, seed):
     env_gen(ck, "gen_menv_assets", kind="menv", seeds=8 if q else 32, Ticks=(1, 2), T0=5, Ops=["new", "cancel", "step"], Kinds=["L", "M"], Prices=[10, 12],
             MaxSubmits=3 if q else 4, MaxBatch=3, MaxSteps=2, MaxOrders=2, need=("schedule_matters", "has_trade"), timeout=400 if q else 1800)
     # long random histories of direct operations on markets of 1..4 assets (per-asset ticks, reloads, toggles)
+    cross(ck, q, "env_edge_prices")
     mkt_traces(ck, "rand_market", files=6 if q else 48, runs=3 if q else 6, ops=200)
     env_traces(ck, "rand_menv_assets", {"kind": "menv", "assets": [2, 3, 4], "ticks": [1, 2, 3, 5], "max_batch": 48, "p_step": 0.04}, files=6 if q else 48,
                runs=3 if q else 6, ops=250)
